@@ -19,6 +19,7 @@ fn alpha_of(text: &str) -> String {
 
 pub fn corpus(extras: bool, thorough: bool) -> Vec<G> {
     let mut v: Vec<G> = vec![];
+    let mut extra: Vec<G> = vec![];
     let mut push = |text: String, class: &'static str| {
         let alphabet = alpha_of(&text);
         v.push(G { text, alphabet, class });
@@ -114,6 +115,18 @@ pub fn corpus(extras: bool, thorough: bool) -> Vec<G> {
             push(format!("{b} = {t}{{ \"a\" ~ \"b\"? }} r = {{ {b}+ ~ \"1\"? }} s = @{{ {b} ~ ANY }}"), "shadowed-builtin");
         }
     }
+    // every advertised Unicode property name, as a built-in rule (chunks of 48 rules per grammar)
+    {
+        let names: Vec<&'static str> = pest::unicode::unicode_property_names().collect();
+        for chunk in names.chunks(48) {
+            let mut g = String::new();
+            for n in chunk {
+                g.push_str(&format!("u_{n} = {{ {n} }} "));
+            }
+            g.push_str(&format!("r = {{ ({})* ~ EOI }}", chunk.iter().take(6).map(|n| format!("u_{n}")).collect::<Vec<_>>().join(" | ")));
+            extra.push(G { text: g, alphabet: "a1\u{4e2d}\u{1f600} ".into(), class: "unicode-names" });
+        }
+    }
     // stack ops
     for body in ["PUSH(\"a\" | \"b\") ~ PUSH(ANY) ~ PEEK_ALL", "PUSH(\"a\") ~ PUSH(\"b\") ~ PEEK[0..1] ~ PEEK[-1..] ~ POP_ALL", "PUSH(ANY) ~ (DROP | \"x\") ~ EOI", "PUSH(\"a\")* ~ (POP ~ \"b\"?)*", "PUSH(\"a\") ~ (POP_ALL | \"a\" ~ PEEK_ALL)", "PUSH(\"b\") ~ PUSH(\"a\") ~ PEEK[..]? ~ ANY*"] {
         for t in types {
@@ -124,5 +137,6 @@ pub fn corpus(extras: bool, thorough: bool) -> Vec<G> {
     // error-report shapes: many rules tried at one position
     push("a = { \"a\" } b = { \"b\" } c = { a ~ b } d = _{ a | b } e = @{ \"a\" ~ \"b\" } f = ${ b ~ a? } g = { !a ~ ANY } many = { a | b | c | e | g } mid = { many ~ \"x\" } top = { a | b | mid } r = { top ~ (!mid ~ ANY)* ~ EOI }".to_string(), "many-rules");
     push("WHITESPACE = _{ \" \" } a = { \"a\" } b = { \"b\" } neg = { !a ~ !b ~ ANY } r = { (a | b | neg)+ ~ EOI } s = @{ r ~ \"#\" }".to_string(), "many-rules");
+    v.extend(extra);
     v
 }
